@@ -513,6 +513,10 @@ func c19Fixed(c *ev.Ctx) {
 		`return [[1, 2], {"a": 1}][0][{"x": 1}];`,
 		`return √[1, 2];`,
 		`return -{"a": [1]};`,
+		`function total() { return 1; } function Total() { return 2; } function TOTAL() { return 3; } function toTal() { return 4; } return totaL();`,
+		`function a1() { return 1; } function a2() { return 2; } function a3() { return 3; } function a4() { return 4; } function a5() { return 5; } return a6(a1(), a2());`,
+		`function f(a) { return a; } function g(a, b) { return b; } function h() { return 0; } return [f(), g(1), h(2)];`,
+		`h = {"b": 1, "a": 2, "c": 3}; return h.d.e + keys(h)[5] + nosuch;`,
 		"return {1: \"a\\nb\", 1: \"a\\\\nb\"};",
 		"return {1: [\"a\", \"b\"], 1: [\"a\\\", \\\"b\"]};",
 		"x = {\"a\\nb\": 1, \"a\\\\nb\": 1}; return keys(x);",
